@@ -7,6 +7,7 @@ result and of the whole intern table is compared.
 import copy
 import io
 import json
+import os
 import pickle
 import random
 
@@ -467,6 +468,8 @@ def run_registry(prop, tier, seed):
     v.nontrivial += rep["stats"].get("created", 0) if prop != "C15" else rep["stats"].get("op:load", 0)
     v.add_violations(rep["mm"])
     v.extra.setdefault("replay", []).append({"config": "simulate", "behaviours": len(hists), "executed": rep["n"]})
+    if prop in ("C01", "C02") and (not q or os.environ.get("VERIF_SUITE_TRACE") == "1"):
+        suite_trace(v, prop)
     if prop == "C15":
         v.rule = ("cases = transitions of the TLC state graph of MC_Registry with Dump/Load/LoadForeign actions (units and "
                   "quantities of int/float/Decimal magnitude; pickle, copy, deepcopy, JSON), one real execution each; "
@@ -477,6 +480,61 @@ def run_registry(prop, tier, seed):
                   "new Unit._known entry (the only moments at which a stored dimension / a canonical object is decided)")
     v.samples = samples
     return v.finish()
+
+
+def suite_trace(v, prop):
+    """code -> spec: run the repository's own test suite (one process) under the external recorder plugin and let TLC
+    validate the recorded history of the intern table; then corrupt one recorded field and demand a rejection."""
+    import subprocess
+    from core import PY, REPO, VERIF
+    wd = workdir("suite_trace")
+    out = os.path.join(wd, "trace.ndjson")
+    env = dict(os.environ, MEASURED_VERIF="1", VERIF_TRACE_OUT=out, HYPOTHESIS_STORAGE_DIRECTORY=os.path.join(wd, "hyp"),
+               PYTHONPATH=os.path.join(REPO, "src") + os.pathsep + os.path.join(VERIF, "harness"), PYTHONDONTWRITEBYTECODE="1",
+               COVERAGE_FILE=os.path.join(wd, "cov"))
+    p = None
+    for attempt in range(2):    # the suite occasionally hangs in a hypothesis test (also on the unchanged tree)
+        try:
+            p = subprocess.run([PY, "-m", "pytest", "-q", "-p", "no:cacheprovider", "-n", "0", "--no-cov", "-p", "verif_pytest_recorder",
+                                "--rootdir", REPO, os.path.join(REPO, "tests"), os.path.join(REPO, "src")],
+                               cwd=wd, env=env, stdout=subprocess.PIPE, stderr=subprocess.STDOUT, text=True, timeout=900)
+            break
+        except subprocess.TimeoutExpired:
+            continue
+    if p is None or not os.path.exists(out) or os.path.getsize(out) == 0:
+        raise MachineryError("recording the test suite failed: %s" % (p.stdout[-1500:] if p else "timeout"))
+    res = run_tlc("MC_RegistryTrace", wd=workdir("tlc_reg_trace"), env={"VERIF_TRACE_FILE": out}, workers=1, timeout=3000)
+    if res.errors or not res.exports.get("DONE"):
+        raise MachineryError("MC_RegistryTrace failed: %s" % res.errors[:2])
+    done = res.exports["DONE"][-1]
+    v.add_tlc(res, "MC_RegistryTrace: the repository's test suite under the recorder (%d events, %d interned units)" % (done["events"], done["entries"]))
+    v.impl += done["entries"]
+    v.evaluations += done["entries"]
+    v.nontrivial += done["entries"]
+    v.extra["suite_trace"] = {"events": done["events"], "entries": done["entries"], "pytest_summary": (p.stdout.strip().splitlines() or [""])[-1]}
+    seen = set()
+    for b in res.exports.get("BAD", []):
+        pr = "C01" if b["clause"].startswith("C01") else "C02"
+        key = "suite-trace:%s" % b["clause"]
+        if pr == prop and key not in seen:
+            seen.add(key)
+            v.violations.append({"prop": prop, "key": key, "detail": "during %s: %s" % (b["test"], json.dumps(b["what"], ensure_ascii=False)[:400]), "path": [b["test"]]})
+    # binding self-test: one corrupted dimension exponent must be rejected
+    lines = open(out).read().splitlines()
+    for li, line in enumerate(lines):
+        e = json.loads(line)
+        hit = next((n for n in e.get("new", []) if len(n[2]) > 1), None)
+        if hit:
+            hit[3][1] += 1
+            lines[li] = json.dumps(e)
+            break
+    bad = os.path.join(wd, "corrupted.ndjson")
+    open(bad, "w").write("\n".join(lines) + "\n")
+    res2 = run_tlc("MC_RegistryTrace", wd=workdir("tlc_reg_trace_selftest"), env={"VERIF_TRACE_FILE": bad}, workers=1, timeout=3000)
+    if not any(b["clause"] == "C01_DimConsistent" for b in res2.exports.get("BAD", [])):
+        raise MachineryError("self-test failed: a corrupted recorded dimension was not rejected by MC_RegistryTrace")
+    v.extra["suite_trace"]["selftest"] = "a corrupted dimension exponent was rejected by TLC"
+    os.remove(bad)
 
 
 def _short(e):
